@@ -2,7 +2,7 @@
    (kind 2) the trace acceptor of Model/SystemAccept.v plus the boolean order check on the final state.
    No proofs in this file. *)
 From Coq Require Import List NArith ZArith Bool Arith PeanoNat.
-From SV Require Import Model.Common Model.System Model.SystemAccept Model.RecoveryOrder.
+From SV Require Import Model.Common Model.System Model.SystemAccept Model.RecoveryOrder Model.FeederLoad.
 Import ListNotations.
 Open Scope nat_scope.
 
@@ -92,4 +92,5 @@ Definition run_case_C05 (c : case) : bytes :=
   else if N.eqb (c_kind c) 6 then str [111;107;58;115;116;97;108;108]                  (* "ok:stall": idem *)
   else if N.eqb (c_kind c) 7 then run_recovery_case (c_zargs c)        (* Model/RecoveryOrder.v: transmission order per life *)
   else if N.eqb (c_kind c) 8 then run_live_restart_case (c_zargs c)    (* idem: first-delivery order of the stream *)
+  else if N.eqb (c_kind c) 9 then run_loadfail_case (c_zargs c)        (* Model/FeederLoad.v: transmission order with load failures *)
   else bad_case_output.
